@@ -21,7 +21,9 @@ FORMAT_COMPRESSIONS = {
     "npz": ["", "ZIP"],
     "tfrec": ["", "GZIP", "ZLIB"],
 }
-MD = {"None": None, "A": {"k": "A"}, "B": {"k": "B"}}
+# shard-level metadata values are nested on purpose (a list inside the dict): a writer that keeps a shallow copy of
+# the caller's object would still alias the inner list
+MD = {"None": None, "A": {"k": ["A"]}, "B": {"k": ["B"]}}
 EXT = (".fb", ".npz", ".tfrec")
 
 
@@ -250,8 +252,12 @@ class Projector:
 def md_name(md) -> str:
     if not md:
         return "None"
-    if isinstance(md, dict) and set(md) == {"k"} and md["k"] in ("A", "B"):
-        return md["k"]
+    if isinstance(md, dict) and set(md) == {"k"}:
+        v = md["k"]
+        if isinstance(v, list) and len(v) == 1:
+            v = v[0]
+        if v in ("A", "B"):
+            return v
     return "X:" + json.dumps(md, sort_keys=True)
 
 
@@ -397,7 +403,7 @@ class Replayer:
         self.nsess = 0
         self.next_ex = 1
         self.sess_of = {}
-        self.caller_md = {"k": "A"}
+        self.caller_md = {"k": ["A"]}
         self.names = _NameSeq(writer_names)
         self.problems: list[tuple[str, str]] = []  # (kind, description): behaviour the specification forbids
         import sedpack.io.dataset_writing as dw
@@ -461,7 +467,7 @@ class Replayer:
     def write(self, p, split, md, kind):
         i = self.next_ex
         self.next_ex += 1
-        eff = md if md != "REF" else self.caller_md["k"]
+        eff = md if md != "REF" else self.caller_md["k"][0]
         if p == 0:
             try:
                 self.ctx.write_example(values=example(i, kind), split=split, custom_metadata=self._md_arg(md))
@@ -482,7 +488,7 @@ class Replayer:
             self.problems.append(("bad-shape-accepted", f"write {w['id']} with a shape violation was accepted"))
 
     def mutate_caller(self):
-        self.caller_md["k"] = "B" if self.caller_md["k"] == "A" else "A"
+        self.caller_md["k"][0] = "B" if self.caller_md["k"][0] == "A" else "A"   # in place, inside the nested list
 
     def exit_filler(self, p):
         if p != 0:
